@@ -4,6 +4,7 @@ CONSTANTS
   Emit = FALSE
   ChunkSize = 256
   ChunkStride = 1
+  Walk = FALSE
   Kinds = {"half", "float", "double", "x86_fp80", "fp128", "ppc_fp128"}
 INVARIANTS Preserved
 CHECK_DEADLOCK FALSE
